@@ -208,12 +208,13 @@ namespace occa {
   //   include_paths : Array
 
   hash_t kernelHeaderHash(const occa::json &props) {
-    return (
-      occa::hash(props["defines"])
-      ^ props["functions"]
-      ^ props["includes"]
-      ^ props["headers"]
-    );
+    // Values are hashed together with the name of their property, see
+    // serial::device::kernelHash
+    hash_t hash;
+    for (const std::string key : {"defines", "functions", "includes", "headers"}) {
+      hash ^= occa::hash(key + "=" + props[key].dump());
+    }
+    return hash;
   }
 
   std::string assembleKernelHeader(const occa::json &props) {
